@@ -151,9 +151,11 @@ package gabi
 
 //@ func (*ProofD).ChallengeContribution
 //@   property C01 C02 C11 C12 C08
-//@   requires p != nil && wfpk(pk) && nonnegD(p) && rangecache(p, pk)
-//@   ensures cacheinv: rangecache(p, pk)
-//@   ensures struct: err == nil ==> structD(p, pk) && len(result0) >= 2 && result0[0] == p.A && forall i in 0..len(result0) :: result0[i] != nil
+//@   requires p != nil && wfpk(pk) && nonnegD(p)
+//@   ensures cacheinv: err == nil && p.RangeProofs != nil ==> rangecache(p, pk)
+//@   ensures struct: err == nil ==> structD(p, pk) && len(result0) >= 2 && result0[0] == p.A
+//@   ensures nonnil1: err == nil && p.RangeProofs == nil ==> forall i in 0..len(result0) :: result0[i] != nil
+//@   ensures nonnil2: err == nil && p.RangeProofs != nil ==> forall i in 0..len(result0) :: result0[i] != nil
 //@   ensures hidden: err == nil ==> forall idx in dom(p.RangeProofs) :: in(p.AResponses, idx)
 //@   ensures[C12,C13] allchecked: err == nil && p.RangeProofs != nil ==> p.cachedRangeStructures != nil && forall idx in dom(p.RangeProofs) :: forall i in 0..len(p.RangeProofs[idx]) :: rpchecked(p.cachedRangeStructures[idx][i], p.RangeProofs[idx][i], pk)
 //@   ensures nonrev: err == nil && p.NonRevocationProof != nil ==> nrstruct(p.NonRevocationProof) && p.NonRevocationProof.Challenge == p.C && p.NonRevocationProof.SignedAccumulator != nil && p.NonRevocationProof.SignedAccumulator.Accumulator != nil && p.NonRevocationProof.Nu == p.NonRevocationProof.SignedAccumulator.Accumulator.Nu
@@ -193,7 +195,7 @@ package gabi
 
 //@ func (*ProofD).Verify
 //@   property C01 C02 C08
-//@   requires p != nil && wfpk(pk) && context != nil && nonce1 != nil && nonnegD(p) && p.cachedRangeStructures == nil
+//@   requires p != nil && wfpk(pk) && context != nil && nonce1 != nil && nonnegD(p)
 //@   ensures accept: result ==> structD(p, pk) && sizesD(p, pk)
 //@   ensures hidden: result ==> forall idx in dom(p.RangeProofs) :: in(p.AResponses, idx)
 //@   modifies p.cachedRangeStructures, p.NonRevocationProof.Nu, p.NonRevocationProof.Challenge, mapof(p.NonRevocationProof.Responses), p.NonRevocationProof.SignedAccumulator.Accumulator, p.NonRevocationProof.acc, heap("rangeproof.Proof.MResponse")
@@ -222,7 +224,7 @@ package gabi
 
 //@ # ---- proof lists ----
 //@ # a decodable list: every element is a non-nil *ProofD or *ProofU, all distinct objects, with non-negative integers and empty caches
-//@ pred elemok(x) := (x is *ProofD && x.(*ProofD) != nil && nonnegD(x.(*ProofD)) && x.(*ProofD).cachedRangeStructures == nil) || (x is *ProofU && x.(*ProofU) != nil)
+//@ pred elemok(x) := (x is *ProofD && x.(*ProofD) != nil && nonnegD(x.(*ProofD))) || (x is *ProofU && x.(*ProofU) != nil)
 //@ pred listok(pl, keys) := len(keys) >= len(pl) && (forall i in 0..len(pl) :: elemok(pl[i]) && wfpk(keys[i])) && (forall i in 0..len(pl) :: forall j in 0..len(pl) :: i != j ==> ipay(pl[i]) != ipay(pl[j]))
 //@ pred elemstruct(x, pk) := (x is *ProofD ==> structD(x.(*ProofD), pk)) && (x is *ProofU ==> structU(x.(*ProofU), pk))
 
@@ -236,7 +238,6 @@ package gabi
 //@   assert at ChallengeContribution key: $1 == publicKeys[$i]
 //@   loop 0 invariant 0 <= $i && $i <= len(pl) && fresh(contributions) && forall j in 0..len(contributions) :: contributions[j] != nil
 //@   loop 0 invariant forall j in 0..$i :: elemstruct(pl[j], publicKeys[j])
-//@   loop 0 invariant forall j in $i..len(pl) :: pl[j] is *ProofD ==> pl[j].(*ProofD).cachedRangeStructures == nil
 //@   loop 0 modifies elems(contributions), onlyfresh("BV")
 //@   mustfail canary: err != nil
 
